@@ -185,7 +185,9 @@ func runC18(c *Ctx) {
 				_, bf := p.storesTo(ex)
 				for _, v := range bf["L"] {
 					t := p.TermOf(v)
-					if t.Has(func(x *Term) bool { return x.Op == "list" && len(x.Args) == 1 && x.Args[0].IsField("Self", isParam(route, 0)) }) {
+					if t.Has(func(x *Term) bool {
+						return x.Op == "list" && len(x.Args) == 1 && x.Args[0].IsField("Self", isParam(route, 0))
+					}) {
 						hasSelf = true
 					}
 					if t.Has(func(x *Term) bool { return x.Op == "list" && len(x.Args) == 1 && x.Args[0].IsParam(route, 1) }) {
